@@ -50,8 +50,134 @@ def EvalOut.isOk : EvalOut → Bool
   | .ok _ => true
   | .err _ => false
 
+/-! ### `(c13iter e)`: the iterator consumed through every std route -/
+
+/-- the three primitive ways of getting at the references after `j` calls of `next` -/
+structure View where
+  len : Nat
+  /-- the items the first `j` calls of `next` yield -/
+  firstN : Nat → List MemRef
+  /-- the rest, consumed by repeated `next` -/
+  restCollect : Nat → List MemRef
+  /-- the rest, consumed by `fold` -/
+  restFold : Nat → List MemRef
+
+/-- the model's stack machine -/
+def modelView (e : Expr CFloat) : View :=
+  { len := (memoryReferences e).length
+    firstN := fun j => (nextN j [e]).1
+    restCollect := fun j => drain (nextN j [e]).2
+    restFold := fun j => (foldFrom (fun acc r => r :: acc) [] (nextN j [e]).2).reverse }
+
+/-- the specification: the recursive listing -/
+def specView (e : Expr CFloat) : View :=
+  let l := e.addrs
+  { len := l.length, firstN := l.take, restCollect := l.drop, restFold := l.drop }
+
+def refsS (l : List MemRef) : Sexp := .list (l.map encodeMemRef)
+def optRefS : Option MemRef → Sexp
+  | some r => .list [.atom "some", encodeMemRef r]
+  | none => .list [.atom "none"]
+def optNatS : Option Nat → Sexp
+  | some n => .list [.atom "some", .atom (toString n)]
+  | none => .list [.atom "none"]
+def natS (n : Nat) : Sexp := .atom (toString n)
+
+/-- `max_by_key(index)`: the LAST maximal element; `min_by_key(index)`: the FIRST minimal element -/
+def maxByIndex (l : List MemRef) : Option MemRef :=
+  l.foldl (fun acc r => match acc with
+    | none => some r
+    | some a => if a.index > r.index then some a else some r) none
+def minByIndex (l : List MemRef) : Option MemRef :=
+  l.foldl (fun acc r => match acc with
+    | none => some r
+    | some a => if a.index > r.index then some r else some a) none
+def maxIndex (l : List MemRef) : Option Nat := (maxByIndex l).map (·.index)
+
+def everyOther : List MemRef → List MemRef
+  | a :: _ :: rest => a :: everyOther rest
+  | l => l
+
+/-- same k's as `route_ks` in the harness -/
+def routeKs (len : Nat) : List Nat :=
+  let base := List.range (min (len + 1) 10 + 1)
+  [len - 1, len, len + 1].foldl (fun ks k => if ks.contains k then ks else ks ++ [k]) base
+
+/-- the expected routes, in the harness's order; payload `none` = "checked by a predicate" (size_hint) -/
+def expectedRoutes (v : View) : List (String × Nat × Option Sexp) :=
+  let nf (j : Nat) := (v.restCollect j).take 1 ++ v.restFold (j + 1)   -- one `next`, then `fold`
+  let all := v.restCollect 0
+  [("collect", 0, some (refsS all)),
+   ("nextloop", 0, some (refsS all)),
+   ("fused", 0, some (.atom "true")),
+   ("for_each", 0, some (refsS (v.restFold 0))),
+   ("fold", 0, some (refsS (v.restFold 0))),
+   ("count", 0, some (natS (v.restFold 0).length)),
+   ("last", 0, some (optRefS (v.restFold 0).getLast?)),
+   ("step_by", 0, some (refsS (everyOther all))),
+   ("max_by_key", 0, some (optRefS (maxByIndex (nf 0)))),
+   ("min_by_key", 0, some (optRefS (minByIndex (nf 0)))),
+   ("reduce", 0, some (optRefS (nf 0).getLast?)),
+   ("max_index", 0, some (optNatS (maxIndex (nf 0)))),
+   ("sum_index", 0, some (natS ((v.restFold 0).foldl (fun s r => s + r.index % 1000) 0))),
+   ("peek_pairs", 0, some (.list (all.map (fun r => .list [optRefS (some r), optRefS (some r)]) ++
+      [.list [optRefS none, optRefS none]])))] ++
+  (routeKs v.len).flatMap fun k =>
+    [("nth", k, some (optRefS (v.firstN (k + 1))[k]?)),
+     ("skip", k, some (refsS (v.restCollect k))),
+     ("take_rest", k, some (.list [refsS (v.firstN k), refsS (v.restCollect k)])),
+     ("after_for_each", k, some (refsS (v.restFold k))),
+     ("after_fold", k, some (refsS (v.restFold k))),
+     ("after_count", k, some (natS (v.restFold k).length)),
+     ("after_collect", k, some (refsS (v.restCollect k))),
+     ("after_last", k, some (optRefS (v.restFold k).getLast?)),
+     ("after_peek_fold", k, some (.list [optRefS (v.restCollect k).head?, refsS (nf k)])),
+     ("after_clone", k, some (.list [refsS (v.restCollect k), refsS (v.restFold k)])),
+     ("after_max_index", k, some (optNatS (maxIndex (nf k)))),
+     ("after_skip1", k, some (refsS (v.restCollect (k + 1)))),
+     ("size_hint", k, none)]
+
+/-- names of the routes on which the implementation's output differs from the expectation -/
+def routeMismatches (v : View) (impl : List Sexp) : List String :=
+  let exp := expectedRoutes v
+  let rec go : List (String × Nat × Option Sexp) → List Sexp → List String
+    | [], [] => []
+    | (n, k, p) :: es, i :: is =>
+      let ok := match i, p with
+        | .list [.atom n', .atom k', payload], some p => n' == n && k' == toString k && payload == p
+        | .list [.atom n', .atom k', .list [.atom lo, hi]], none =>
+          -- size_hint: lower ≤ remaining ≤ upper (if any)
+          n' == n && k' == toString k &&
+          (match lo.toNat? with
+           | some lo => decide (lo ≤ v.len - k) &&
+              (match hi with
+               | .list [.atom "some", .atom h] => (match h.toNat? with | some h => decide (v.len - k ≤ h) | none => false)
+               | .list [.atom "none"] => true
+               | _ => false)
+           | none => false)
+        | _, _ => false
+      (if ok then [] else [s!"{n}@{k}"]) ++ go es is
+    | es, is => [s!"route-count(expected {es.length} more, got {is.length} more)"]
+  go exp impl
+
+def handleIter (inp out : Sexp) (eS : Sexp) : CaseResult :=
+  match decodeExpr eS with
+  | none => .bad s!"undecodable input {inp}"
+  | some e =>
+    match out with
+    | .list (.atom "routes" :: impl) =>
+      let mm := routeMismatches (modelView e) impl
+      let sm := routeMismatches (specView e) impl
+      { agree := mm.isEmpty, specOk := sm.isEmpty, nontrivial := !e.addrs.isEmpty,
+        tags := ["iter", s!"iter-refs{min e.addrs.length 6}"] ++ shapeTags e ++
+          (sm.map fun m => "iter-miss-" ++ ((m.splitOn "@").headD m)).eraseDups,
+        detail := s!"routes differing from the model: {mm}; from the recursive listing: {sm}; listing={refsS e.addrs}" }
+    | _ => { agree := false, specOk := false, nontrivial := true, tags := ["impl-crash-or-undecodable"],
+             detail := s!"impl={out}" }
+
 def handle (inp out : Sexp) : CaseResult :=
   match inp with
+  | .list [.atom "c13iter", eS] => handleIter inp out eS
   | .list [.atom "c13", eS, ρS, μS, σS] =>
     match decodeExpr eS, decodeVarEnv ρS, decodeMemEnv μS, decodeAssoc decodeExpr σS with
     | some e, some ρl, some μl, some σl =>
